@@ -241,7 +241,7 @@ def _thread_returns(blocks, post, call, callee_ids):
         b["succ"] = [target if s == post["id"] else s for s in b["succ"]]
 
 
-def inline_raw(raw, statics, depth=2, stack=(), max_blocks=None):
+def inline_raw(raw, statics, depth=2, stack=(), max_blocks=None, thread=False):
     """raw: function dict as extracted.  statics: {name: raw dict} of the unit's static functions."""
     if depth <= 0:
         return raw
@@ -267,7 +267,7 @@ def inline_raw(raw, statics, depth=2, stack=(), max_blocks=None):
             if cal is None or e["fn"] == name or e["fn"] in stack or len(cal["blocks"]) > max_blocks or j >= 40:
                 k += 1
                 continue
-            callee = inline_raw(cal, statics, depth - 1, stack + (name,), max_blocks)
+            callee = inline_raw(cal, statics, depth - 1, stack + (name,), max_blocks, thread)
             j += 1
             changed = True
             args = e.get("args", [])
@@ -352,10 +352,13 @@ def inline_raw(raw, statics, depth=2, stack=(), max_blocks=None):
             # jump threading for helpers that answer with a constant: when the block behind the call does nothing but
             # branch on the call's result (`if (!helper (x)) return;`), a `return K` of the helper continues on the side
             # of that branch which K selects instead of running into both
-            try:
-                _thread_returns(blocks, post, e, [cmap[b["id"]] for b in callee["blocks"] if b["id"] != c_exit])
-            except Exception:
-                pass
+            # (opt-in: it removes infeasible paths, but the test behind the call then no longer dominates what follows
+            # it, which rules that look for that test as a guard rely on)
+            if thread:
+                try:
+                    _thread_returns(blocks, post, e, [cmap[b["id"]] for b in callee["blocks"] if b["id"] != c_exit])
+                except Exception:
+                    pass
             cur = post
             k = 1            # the call element itself stays at the head of the post block
     if not changed:
@@ -368,10 +371,10 @@ def inline_raw(raw, statics, depth=2, stack=(), max_blocks=None):
     return out
 
 
-def inlined(f, depth=2, max_blocks=None):
+def inlined(f, depth=2, max_blocks=None, thread=False):
     """Func -> Func with static helpers of the same unit inlined (cached on the function object)."""
     cache = f.__dict__.setdefault("_inlined", {})
-    key = (depth, max_blocks)
+    key = (depth, max_blocks, thread)
     if key in cache:
         return cache[key]
     from facts import Func
@@ -384,7 +387,7 @@ def inlined(f, depth=2, max_blocks=None):
     if raw is None:
         cache[key] = f
         return f
-    new = inline_raw(raw, statics, depth, (), max_blocks)
+    new = inline_raw(raw, statics, depth, (), max_blocks, thread)
     g = f if new is raw else Func(new, unit)
     cache[key] = g
     return g
